@@ -183,6 +183,15 @@ void run_rconst(unsigned seed) {
         Tensor<T,(N + 1) / 2,N> V = cm(seq(0, (int)N, 2), all);
         for (size_t i = 0; i < (N + 1) / 2 && !what; ++i) for (size_t j = 0; j < N; ++j)
             if (V(i, j) != x[2 * i * N + j] || cm((int)(2 * i), (int)j) != x[2 * i * N + j]) { what = "cm(seq,all) / cm(i,j)"; pos = (long)(2 * i * N + j); }
+        {   // reductions, products and diag of a map of a const buffer / of a map (compile with the const-map and diag repairs)
+            T su = 0, mn = x[0]; for (auto v : x) { su += v; if (v < mn) mn = v; }
+            if (!what && (!(sum(cm) == su) || !(cm.sum() == su) || !(min(cm) == mn))) { what = "sum(cm)/cm.sum()/min(cm)"; pos = -5; }
+            Tensor<T,N,N> P = matmul(cm, B);
+            for (size_t i = 0; i < N && !what; ++i) for (size_t j = 0; j < N; ++j) { T r = 0; for (size_t k = 0; k < N; ++k) r += x[i * N + k] * b[k * N + j]; if (!(P(i, j) == r)) { what = "matmul(cm,B)"; pos = (long)(i * N + j); } }
+            TensorMap<T,N,N> mm(buf);
+            Tensor<T,N> dg = diag(mm);
+            for (size_t i = 0; i < N && !what; ++i) if (!(dg(i) == x[i * N + i])) { what = "diag(m)"; pos = (long)i; }
+        }
         Tensor<T,N,N> Cp = cm;
         for (size_t p = 0; p < N * N && !what; ++p) if (!(Cp.data()[p] == x[p]) || !(buf[p] == x[p])) { what = "Tensor = cm"; pos = (long)p; }
         if (!what) std::printf(" | ok\n"); else std::printf(" | FAIL stmt=%s pos=%ld\n", what, pos);
